@@ -289,7 +289,7 @@ def numpy_producer(queue, in_array, blockshape, hash_object):
         for i in range(planes_to_read):
             hash_object.update(buffer[i, 0:n_xlines, 0:trace_length].copy())
 
-        if blockshape[0] == 4:
+        if blockshape[0] == 4 and blockshape[1] == 4:
             queue.put(buffer)
         else:
             for x in range(padded_shape[1] // blockshape[1]):
@@ -378,7 +378,7 @@ def seismic_file_producer(queue, seismicfile, blockshape, store_headers,
         for i in range(planes_to_read):
             hash_object.update(seismic_buffer[i, 0:n_xlines, 0:trace_length].copy())
 
-        if blockshape[0] == 4:
+        if blockshape[0] == 4 and blockshape[1] == 4:
             queue.put(seismic_buffer)
         else:
             for x in range(padded_shape[1] // blockshape[1]):
